@@ -12,6 +12,7 @@ EXPLANATION = (
     "(iii) no write at all. (For (ii) the push may come directly before or directly after the store: the old value is read before "
     "the store either way — C01's kick-loop rule decides that read.) RNG-typed fields are exempt (trait doc: internal state may change). Also: `other` is `&Self` "
     "without interior mutability (type tree)."
+    ' A log that was filled before a whole-field snapshot restore is stale: replaying it afterwards is a write that nothing undoes.'
 )
 NOT_DECIDED = "nothing in the state clause; RNG state advancing on a failed cuckoo insert is explicitly allowed by the trait."
 ASSUMPTIONS = [
